@@ -269,6 +269,12 @@ theorem resolve_cell_row_col (g : Grid) (c r : Nat) (hr : 1 ≤ r) :
     prepareCellStyle g c r (cellS g c r) = Spec.resolve (levelsOf g) c r :=
   prepareCellStyle_eq_resolve g c r hr
 
+/-- `GetCellStyle` is a pure read (since the C04 repair it creates neither rows nor cells): it
+returns the three-level resolution of the grid as stored, for cells that exist and cells that do not -/
+theorem getcellstyle_resolves (g : Grid) (c r : Nat) (hr : 1 ≤ r) :
+    getCellStyle g c r = Spec.resolve (levelsOf g) c r :=
+  prepareCellStyle_eq_resolve g c r hr
+
 /-- the eight combinations spelled out on the Spec -/
 theorem resolve_cases (l : Spec.Levels) (c r : Nat) :
     (l.cell c r ≠ 0 → Spec.resolve l c r = l.cell c r) ∧
